@@ -239,7 +239,9 @@ public:
             std::stop_source stps;
             using AwtRetVal = std::decay_t<awaiter_return_value<Awt> >;
             auto worker = worker_coro<false>(stps.get_token());
-            stack_storage storage(_elide_state);
+            //_elide_state is shared by all threads running start(): work on a private copy
+            std::size_t elide_state = load_elide_state();
+            stack_storage storage(elide_state);
             storage = alloca(storage);
 
             if constexpr(std::is_void_v<AwtRetVal>) {
@@ -254,6 +256,7 @@ public:
                 };
 
                 callback_await_alloc<stack_storage,Awt &>(storage, fn, awt);
+                store_elide_state(elide_state);
 
                 coro_queue::install_queue_and_call([&]{
                     worker.detach();
@@ -272,6 +275,7 @@ public:
                 };
 
                 callback_await_alloc<stack_storage,Awt &>(storage, fn, awt);
+                store_elide_state(elide_state);
 
                 coro_queue::install_queue_and_call([&]{
                      worker.detach();
@@ -358,6 +362,16 @@ protected:
     std::optional<GlobState> _glob_state;
     std::size_t _elide_state = 0;
 
+
+    std::size_t load_elide_state() {
+        std::lock_guard _(_mx);
+        return _elide_state;
+    }
+
+    void store_elide_state(std::size_t sz) {
+        std::lock_guard _(_mx);
+        if (sz > _elide_state) _elide_state = sz;
+    }
 
     static bool compare_item(const SchItem &a, const SchItem &b) {
         return a._tp > b._tp;
